@@ -86,3 +86,80 @@ func VerifC14Plumbing() {
 	}
 	vapi.Reach("c14-plumbing")
 }
+
+// VerifC14BlockReinstate: hash routing stays a function of the hash code and the CURRENT
+// endpoint set when the set changes through the manager itself: one of three endpoints (any of
+// them) is blocked by the real checkStatus (5 failures in a row for 10 s), then reinstated by
+// addAliveEp. After each step a call with any hash code is routed like a fresh selector of that
+// kind over the current set would route it; mod-hash: slot code mod N of the remaining list in
+// its installed order, and after the reinstatement of that list with the endpoint appended.
+func VerifC14BlockReinstate() {
+	comm := &Communicator{Client: &clientConfig{ObjQueueMax: 100, ClientReadTimeout: 100 * time.Millisecond}, app: &application{allFilters: &filters{}}}
+	e := &endpointManager{objName: "obj", comm: comm, freshLock: &sync.Mutex{}, epList: &sync.Map{}, epLock: &sync.Mutex{}, checkAdapterList: &sync.Map{},
+		rand: rand.New(rand.NewSource(1)), checkAdapter: make(chan *AdapterProxy, 8)}
+	epfs := []endpointf.EndpointF{{Host: "10.0.0.1", Port: 1, Timeout: 3000, Istcp: 1}, {Host: "10.0.0.2", Port: 2, Timeout: 3000, Istcp: 1}, {Host: "10.0.0.3", Port: 3, Timeout: 3000, Istcp: 1}}
+	e.activeEpf = epfs
+	e.updateActiveEp([]endpoint.Endpoint{endpoint.Tars2endpoint(epfs[0]), endpoint.Tars2endpoint(epfs[1]), endpoint.Tars2endpoint(epfs[2])})
+	installed := append([]endpoint.Endpoint{}, e.activeEp...) // the order the manager installed
+	// create the adapters through normal rotation
+	rr := &Message{}
+	adps := map[string]*AdapterProxy{}
+	for i := 0; i < 6 && len(adps) < 3; i++ {
+		if a, _ := e.SelectAdapterProxy(rr); a != nil {
+			adps[a.GetPoint().Host] = a
+		}
+	}
+	vapi.Assume(len(adps) == 3)
+	victim := installed[vapi.Choice("victim", 3)]
+	va := adps[victim.Host]
+	now := time.Now().Unix()
+	for _, a := range adps {
+		a.lastSuccessTime, a.lastCheckTime = now, now
+	}
+	for k := 0; k < 5; k++ {
+		va.sendAdd()
+		va.failAdd()
+	}
+	va.lastSuccessTime = now - 10
+	e.checkStatus()
+	vapi.Check(!va.status, "the failing endpoint is blocked")
+	var remaining []endpoint.Endpoint
+	for _, ep := range installed {
+		if ep.Host != victim.Host {
+			remaining = append(remaining, ep)
+		}
+	}
+	code := vapi.Uint32("code")
+	kind := vapi.Choice("hashtype", 2)
+	route := func() string {
+		msg := &Message{hashCode: code, hashType: HashType(kind), isHash: true}
+		a, _ := e.SelectAdapterProxy(msg)
+		if a == nil {
+			return ""
+		}
+		return a.GetPoint().Host
+	}
+	fresh := func(set []endpoint.Endpoint) string {
+		ref := &Message{hashCode: code, hashType: HashType(kind), isHash: true}
+		if HashType(kind) == ModHash {
+			sel := modhash.New(false)
+			sel.Refresh(append([]endpoint.Endpoint{}, set...))
+			ep, _ := sel.Select(ref)
+			return ep.Host
+		}
+		sel := consistenthash.New(false, consistenthash.KetamaHash)
+		sel.Refresh(append([]endpoint.Endpoint{}, set...))
+		ep, _ := sel.Select(ref)
+		return ep.Host
+	}
+	vapi.Check(route() == fresh(remaining), "after a block, a hash code is routed by the rule over the remaining set")
+	if HashType(kind) == ModHash {
+		vapi.Check(route() == remaining[int(code%2)].Host, "mod-hash after a block: slot code mod N of the remaining list")
+	}
+	// reinstatement
+	va.reset()
+	e.addAliveEp(victim)
+	all := append(append([]endpoint.Endpoint{}, remaining...), victim)
+	vapi.Check(route() == fresh(all), "after the reinstatement, a hash code is routed by the rule over the full set")
+	vapi.Reach("c14-block-reinstate")
+}
